@@ -396,7 +396,7 @@ func convOp1(a []string, cache map[int][]byte) string {
 			}
 		}
 		return "ok " + hexs(nasConvert.PartialServiceAreaListToNas(models.PlmnId{Mcc: string(mcc), Mnc: string(mnc)},
-			models.ServiceAreaRestriction{RestrictionType: rt, Areas: areas}))
+			junkRestriction(models.ServiceAreaRestriction{RestrictionType: rt, Areas: areas}, len(a[3]))))
 	case "ladn2n":
 		if len(a) != 2 {
 			return "bad-op"
@@ -645,6 +645,15 @@ func (g *Gen) mutate(b []byte) []byte {
 func (g *Gen) validNssai() []byte {
 	var b []byte
 	n := 1 + g.Intn(8)
+	if g.Intn(5) == 0 {
+		// more than eight values in no more than 72 octets: the short forms only
+		for k := 9 + g.Intn(28); k > 0 && len(b) < 70; k-- {
+			l := []int{1, 1, 2}[g.Intn(3)]
+			b = append(b, byte(l))
+			b = append(b, g.Bytes(l)...)
+		}
+		return b
+	}
 	// half of the lists draw their octets from a pool of two values, so that entries repeat or differ in one component only
 	// (the same SST / SD with and without a mapped part, in either order)
 	pool := g.Intn(2) == 0
@@ -912,4 +921,16 @@ func staleResult(f, other func() []byte) string {
 		return "the result changed after the caller wrote into an earlier result"
 	}
 	return ""
+}
+
+// junkRestriction fills the attributes of a provisioned service area restriction that the NAS coding does not carry (maximum
+// numbers of tracking areas, area codes): what the network function hands over is the whole subscription object, and the list
+// on the wire is the list of TACs whatever those attributes say
+func junkRestriction(r models.ServiceAreaRestriction, salt int) models.ServiceAreaRestriction {
+	r.MaxNumOfTAs = int32(1 + salt%3)
+	r.MaxNumOfTAsForNotAllowedAreas = int32(1 + salt%2)
+	for i := range r.Areas {
+		r.Areas[i].AreaCode = "area-" + strconv.Itoa(salt+i)
+	}
+	return r
 }
